@@ -108,6 +108,7 @@ func Run(r *common.Run) error {
 		}
 	}
 	r.Exhaustive = append(r.Exhaustive, "every read/write index (single and permanent failure), every end of input, every failing callback and every cancellation instant of 10 instrumented standard handshakes (STARTTLS+auth+voluntary+bind; both roles; TCP/WebSocket; c2s/s2s; pre-secured)")
+	runReal(r)
 	n := r.Pick(3000, 40000)
 	for i := 0; i < n; i++ {
 		cs := c01.RandomCase(r.Rnd, true)
